@@ -17,7 +17,7 @@ REPO = os.environ.get("VERIF_REPO", "/repo")
 # A scratch copy of the repository (mutant / seeded-change testing) is checked with
 #   VERIF_REPO=/tmp/wt VERIF_BUILD=/tmp/wt-build ./check Cxx quick
 # which keeps its build output, evidence and replay files away from the real ones.
-ALT = REPO != "/repo"
+ALT = REPO != "/repo" or bool(os.environ.get("VERIF_BUILD"))     # own build output, evidence, replays
 BUILD = os.environ.get("VERIF_BUILD") or os.path.join(VERIF, ".build")
 if ALT and not os.environ.get("VERIF_BUILD"):
     BUILD = os.path.join(VERIF, ".build", "alt-" + hashlib.sha1(REPO.encode()).hexdigest()[:8])
@@ -76,6 +76,11 @@ def _cargo_env():
     env["CARGO_NET_OFFLINE"] = "true"
     env.pop("RUST_BACKTRACE", None)
     env.pop("RUSTFLAGS", None)
+    if os.environ.get("VERIF_COVERAGE"):
+        # development aid (docs/BUILDING.md): source coverage of zaphar/ucg under the checks, to find what no check reaches;
+        # used with VERIF_BUILD=<scratch dir> and LLVM_PROFILE_FILE, never in a registered command
+        env["RUSTFLAGS"] = "-C instrument-coverage"
+        env["RUSTUP_TOOLCHAIN"] = "nightly"
     return env
 
 
